@@ -320,17 +320,19 @@ async def rdf_case(rng, force=None):
             queue = {str(k): (None if v is None else "hash") for k, v in wf.to_be_deleted.items()}
             qfiles, qdirs = cc.dump_queue(wf, hids)
             client, reporter = cc.make_reporter()
-            await remove_deletable_files(wf, reporter)
+            crash = await cc.call_cleanup(w, "remove_deletable_files", lambda: remove_deletable_files(wf, reporter))
             after = lsnap(".", hids)
             removed = [d for t, d in client.reports if t == "REMOVE"]
             left = {str(k): str(v) for k, v in wf.to_be_deleted.items()}
     return {"desc": desc, "queue": queue, "before": before, "after": after, "removed_events": removed,
-            "owned": owned, "left": left, "qfiles": qfiles, "qdirs": sorted(qdirs)}
+            "owned": owned, "left": left, "qfiles": qfiles, "qdirs": sorted(qdirs), "crash": crash}
 
 
 def rdf_model_check(c):
     """Gallina bool: model/Clean.v remove_deletable_files on the same queue and tree gives the same tree and the
     same REMOVE events in the same order."""
+    if c.get("crash"):
+        return "false"        # an exception escaped the real function; the model has none
     files = [d for d in c["removed_events"] if c["before"].get(d, ["?"])[0] != "dir"]
     dirs = [d for d in c["removed_events"] if c["before"].get(d, ["?"])[0] == "dir"]
     return (f"let r := remove_deletable_files {cc.coq_queue(c['qfiles'], c['qdirs'])} {cc.coq_fs(model_fs(c['before']))} in "
@@ -364,13 +366,13 @@ async def link_pair_case(order, d=""):
             queue = {str(k): (None if v is None else "hash") for k, v in wf.to_be_deleted.items()}
             qfiles, qdirs = cc.dump_queue(wf, hids)
             client, reporter = cc.make_reporter()
-            await remove_deletable_files(wf, reporter)
+            crash = await cc.call_cleanup(w, "remove_deletable_files", lambda: remove_deletable_files(wf, reporter))
             after = lsnap(".", hids)
             removed = [x for t, x in client.reports if t == "REMOVE"]
             left = {str(k): str(v) for k, v in wf.to_be_deleted.items()}
     return {"desc": [[link, "step-link", None], [data, "hashed-data", None]], "queue": queue, "before": before,
             "after": after, "removed_events": removed, "owned": owned, "left": left, "qfiles": qfiles,
-            "qdirs": sorted(qdirs), "directed": {"family": "link-pair", "order": order, "dir": d}}
+            "qdirs": sorted(qdirs), "directed": {"family": "link-pair", "order": order, "dir": d}, "crash": crash}
 
 
 def link_pair_witness(order, d=""):
@@ -398,7 +400,9 @@ def link_pair_witness(order, d=""):
 def rdf_oracle(c):
     out = judge("rdf", c["before"], c["after"], c["owned"], why_not=lambda p: "not-queued")
     if c["left"]:
-        out.append(("own:rdf:queue-not-cleared", str(c["left"])))
+        out.append(("own:rdf:queue-not-cleared", f"to_be_deleted after remove_deletable_files: {c['left']}"))
+    if c.get("crash"):
+        out.append(("own:rdf:exception:" + c["crash"].split(":")[0], f"remove_deletable_files raised {c['crash']}"))
     gone = sorted(p for p in c["before"] if p not in c["after"])
     if sorted(c["removed_events"]) != gone:
         out.append(("own:rdf:remove-events-differ-from-what-vanished", f"events {c['removed_events']} vanished {gone}"))
@@ -435,7 +439,7 @@ def rdf_orphans(c):
 
 
 def rdf_witness(c):
-    return {k: c.get(k) for k in ("directed", "desc", "queue", "before", "after", "removed_events")}
+    return {k: c.get(k) for k in ("directed", "desc", "queue", "before", "after", "removed_events", "crash", "left")}
 
 
 # ---------------------------------------------------------------------------------------------
@@ -584,14 +588,15 @@ async def finalize_case(rng, guard, witness=None, quiet=False):
             err = None
             try:
                 await builder.finalize()
-            except AssertionError as e:
-                err = f"AssertionError: {e}"
+            except Exception as e:  # noqa: BLE001 - whatever escapes is this case's outcome
+                err = f"{type(e).__name__}: {e}"
             res["error"] = err
             res["returncode"] = int(builder.returncode.value) if builder.returncode is not None else 0
             res["has_targets"] = bool(w.wf.targets) or bool(w.wf.target_dirs)
             res["clean"] = guard != "no-clean"
             res["removed_events"] = [d for t, d in client.reports if t == "REMOVE"]
             res["queue_left"] = {str(k): str(v) for k, v in w.wf.to_be_deleted.items()}
+            res["queue_after"] = cc.dump_queue(w.wf, hids)
             async with w.db:
                 res["after_graph"] = cc.dump_graph(w, hids)
             res["after"] = lsnap(".", hids)
@@ -654,6 +659,7 @@ def finalize_orphans(res):
 
 def finalize_witness(res):
     return {"directed": res.get("directed"), "operations": res["log"], "guard": res["guard"], "returncode": res["returncode"], "edits": res["edits"],
+            "exception": res.get("error"), "queue_left": res.get("queue_left"),
             "tree_before": res["before"], "tree_after": res["after"], "removed_events": res["removed_events"]}
 
 
@@ -688,7 +694,7 @@ async def clean_case(rng):
                 try:
                     with contextlib.redirect_stdout(io.StringIO()):
                         clean(w.db, {Path(t) for t in trs}, cc.clean_namespace(all_, safe, commit))
-                except (HashError, OSError) as e:
+                except Exception as e:  # noqa: BLE001
                     crash = f"{type(e).__name__}: {e}"
             after = lsnap(".", hids)
             owned, reasons = _owned_from_graph(b, g, edits, selectable=lambda n: all_ or n["det"])
@@ -974,3 +980,237 @@ def run_cli_link_pairs(ctx, orders, suffix=""):
         ctx.count("own_cli_link_pair_cases", 1)
         for sig, detail in viol:
             ctx.add_failure("oracle", "own:cli", sig + suffix, detail, witness=rec)
+
+
+# ---------------------------------------------------------------------------------------------
+# level 2b: several build phases of ONE director (one Workflow object, one Builder): watch mode
+# ---------------------------------------------------------------------------------------------
+
+PHASE_SCENARIOS = ["A-volatile-replaced-by-directory", "B-removal-fails-once", "random"]
+
+
+@contextlib.contextmanager
+def failing_remove_once(paths):
+    """os.remove raises PermissionError the first time it is called for one of `paths` (a busy file, a directory that
+    is read-only for the moment)."""
+    real = os.remove
+    pending = {os.path.normpath(p) for p in paths}
+
+    def remove(path, *a, **kw):
+        key = os.path.normpath(os.path.relpath(os.fspath(path))) if os.path.isabs(os.fspath(path)) else os.path.normpath(os.fspath(path))
+        if key in pending:
+            pending.discard(key)
+            raise PermissionError(13, "Permission denied (injected once)", os.fspath(path))
+        return real(path, *a, **kw)
+    os.remove = remove
+    try:
+        yield
+    finally:
+        os.remove = real
+
+
+async def phases_case(rng, scenario, d=""):
+    """Three build phases inside one Workflow / Builder (what `stepup build --watch` does): phase 1 builds; in phase 2
+    steps are dropped and the cleanup meets removals that fail (the path is a directory now, or os.remove fails
+    once); then the user adopts former outputs as static files (own content or unchanged); phase 3 is a complete
+    build again.  After every phase the ownership judge runs on that phase's own graph: what is static when the
+    cleanup starts must survive it.  Returns {"phases": [record per phase], ...}."""
+    from stepup.core.enums import HashUpdateCause, StepState
+    from stepup.core.file import File
+    from stepup.core.hash import StepHash
+    from stepup.core.step import Step
+    hids = cc.HashIds()
+    out = {"scenario": scenario, "dir": d, "phases": [], "log": None}
+    with cc.project_dir():
+        async with WF() as w:
+            Path("plan.py").write_text("#!/usr/bin/env python3\n")
+            client, reporter = cc.make_reporter()
+            builder = cc.make_builder(w, reporter)
+            b = OwnBuilder(w, rng, hids)
+            b.link_prob = 0.0
+            adopted = {}
+
+            async def phase(label, fail_once=()):
+                async with w.db:
+                    for st in list(w.wf.nodes(Step)):
+                        if st.label != "./plan.py" and st.get_state() != StepState.SUCCEEDED:
+                            b.complete(st)
+                    if w.plan.get_state() != StepState.SUCCEEDED:
+                        w.plan.mark_completed(StepHash(b"plan", None, b"plan", None), False)
+                await cc.update_meta(w)
+                async with w.db:
+                    g = cc.dump_graph(w, hids)
+                before = lsnap(".", hids)
+                owned, reasons = _owned_from_graph(b, g, adopted)
+                nev = len(client.reports)
+                err = None
+                with failing_remove_once(fail_once):
+                    try:
+                        await builder.finalize()
+                    except Exception as e:  # noqa: BLE001 - outcome of this phase
+                        err = f"{type(e).__name__}: {e}"
+                after = lsnap(".", hids)
+                async with w.db:
+                    g_after = cc.dump_graph(w, hids)
+                out["phases"].append({
+                    "label": label, "graph": g, "after_graph": g_after, "before": before, "after": after,
+                    "owned": owned, "reasons": reasons, "error": err, "injected_failures": sorted(fail_once),
+                    "returncode": int(builder.returncode.value) if builder.returncode is not None else 0,
+                    "removed_events": [x for t, x in client.reports[nev:] if t == "REMOVE"],
+                    "queue_after": cc.dump_queue(w.wf, hids),
+                    "queue_left": {str(k): str(v) for k, v in w.wf.to_be_deleted.items()},
+                    "statics": sorted(n["key"][1] for n in g["nodes"] if n["key"][0] == cc.KIND["file"]
+                                      and n["fstate"] in cc.STATIC_STATES and not n["det"])})
+
+            def adopt(p, content=None):
+                if content is not None:
+                    Path(p).write_text(content)
+
+                def go():
+                    unconfirmed = b.wf.declare_static_files(w.plan, [p])
+                    b.wf.update_file_hashes({q: b.hash_of(q) for q in unconfirmed}, cause=HashUpdateCause.CONFIRMED)
+                if b.attempt(go, ["user adopts as static", p, "own content" if content is not None else "content unchanged"]):
+                    b.statics.add(p)
+                    adopted[p] = "adopt-static"
+
+            if scenario != "random":
+                vol = scenario.startswith("A")
+                p = f"{d}scratch" if vol else f"{d}report.txt"
+                async with w.db:
+                    b.write("src.txt", "source")
+                    b.declare_static(w.plan, "src.txt")
+                    b.define(w.plan, "mk", inp=["src.txt"], out=[] if vol else [p], vol=[p] if vol else [])
+                    b.define(w.plan, "other", inp=["src.txt"], out=["other.txt"])
+                await phase("phase 1: everything built")
+                async with w.db:
+                    b.find_step("mk").detach()
+                    b.log.append(["the plan no longer declares mk (detach)"])
+                if vol:
+                    os.remove(p)
+                    os.mkdir(p)
+                    Path(os.path.join(p, "mine.txt")).write_text("user data")
+                    b.log.append(["user replaces", p, "by a directory of their own"])
+                    await phase("phase 2: cleanup cannot remove the directory")
+                    import shutil
+                    shutil.rmtree(p)
+                    async with w.db:
+                        adopt(p, "hand-written, never produced by any step")
+                else:
+                    await phase("phase 2: removal fails once", fail_once=[p])
+                    async with w.db:
+                        adopt(p)
+                await phase("phase 3: complete build after the adoption")
+            else:
+                async with w.db:
+                    made = b.grow(rng.randint(2, 5))
+                    b.complete_all(made)
+                    b.meta()
+                await phase("phase 1: everything built")
+                async with w.db:
+                    b.drop_random(made)
+                fail = []
+                for q in sorted(b.written):
+                    r = rng.random()
+                    if not os.path.isfile(q) or os.path.islink(q):
+                        continue
+                    if r < 0.25:
+                        tamper(rng, q, rng.choice(["dir-empty", "dir-nonempty"]), {}, 0)
+                        b.log.append(["user replaces", q, "by a directory"])
+                    elif r < 0.5:
+                        fail.append(q)
+                await phase("phase 2: drops, directories in place of outputs, removals that fail once", fail_once=fail)
+                async with w.db:
+                    for q in sorted(b.written):
+                        f, det = b.wf.find_and_detached(File, q)
+                        if f is not None and not det:
+                            continue      # still an output of an attached step
+                        if rng.random() < 0.6:
+                            if os.path.isdir(q) and not os.path.islink(q):
+                                import shutil
+                                shutil.rmtree(q)
+                                adopt(q, "the user's own file " + q)
+                            elif os.path.isfile(q):
+                                adopt(q, None if rng.random() < 0.5 else "the user's own file " + q)
+                await phase("phase 3: complete build after the adoptions")
+            out["log"] = b.log
+    return out
+
+
+def phases_oracle(c):
+    out = []
+    for i, ph in enumerate(c["phases"]):
+        if (ph["returncode"] & ~8) != 0:
+            gone = sorted(p for p in ph["before"] if p not in ph["after"])
+            if gone:
+                out.append(("own:phases:guard-ignored:returncode", f"{ph['label']}: incomplete build removed {gone}"))
+            continue
+        for sig, detail in judge("phases", ph["before"], ph["after"], ph["owned"],
+                                 why_not=lambda p, ph=ph: ph["reasons"].get(p, "never-written-by-a-step")):
+            out.append((sig, f"{ph['label']}: {detail}"))
+        if ph["queue_left"]:
+            out.append(("own:phases:queue-survives-the-cleanup",
+                        f"{ph['label']}: Workflow.to_be_deleted still holds {ph['queue_left']} when finalize returns; the "
+                        f"next phase of this director starts its cleanup with it"))
+        if ph["error"]:
+            out.append(("own:phases:exception:" + ph["error"].split(":")[0], f"{ph['label']}: finalize raised {ph['error']}"))
+    return out
+
+
+def phases_model_check(c):
+    """Gallina bool: model/Clean.v run phase by phase with the queue handed on (next_phase) against what the real
+    Builder left: tree, REMOVE events, queue after every phase.  Only for cases without injected os.remove failures
+    (the model's os.remove fails on directories and missing paths only)."""
+    terms = []
+    prev = "empty_queue"
+    lets = []
+    for i, ph in enumerate(c["phases"]):
+        files = [x for x in ph["removed_events"] if ph["before"].get(x, ["?"])[0] != "dir"]
+        dirs = [x for x in ph["removed_events"] if ph["before"].get(x, ["?"])[0] == "dir"]
+        ctx = f"(mkCtx false {ph['returncode']} true)"
+        lets.append(f"let s{i} := finalize {ctx} (mkFin {cc.coq_graph(ph['graph'])} {prev} {cc.coq_fs(model_fs(ph['before']))} [] [] false) in")
+        qf, qd = ph["queue_after"]
+        terms.append(f"fs_match {cc.coq_fs(model_fs(ph['after']))} (s_fs s{i}) && strs_eqb {cc.coq_strs(files)} (s_files s{i}) && "
+                     f"strs_eqb {cc.coq_strs(dirs)} (s_dirs s{i}) && queue_match {cc.coq_qfiles(qf)} {cc.coq_strs(sorted(qd))} (s_q s{i}) && "
+                     f"Bool.eqb (s_err s{i}) {cc.coq_bool(ph['error'] is not None)}")
+        prev = f"(s_q s{i})"
+    return " ".join(lets) + " " + " && ".join(terms)
+
+
+def phases_modelled(c):
+    return all(not ph["injected_failures"] and model_ok(ph["before"]) for ph in c["phases"])
+
+
+def phases_witness(c):
+    return {"scenario": c["scenario"], "dir": c["dir"], "operations": c["log"],
+            "phases": [{k: ph[k] for k in ("label", "statics", "injected_failures", "returncode", "removed_events", "error",
+                                           "queue_left", "before", "after")} for ph in c["phases"]],
+            "how": "harness.clean_own.phases_case: one Workflow + one Builder, Builder.finalize() once per phase"}
+
+
+async def _run_phases(ctx, n_random):
+    out = []
+    for j, sc in enumerate(PHASE_SCENARIOS[:2]):
+        for d in ("", "d1/"):
+            out.append(await phases_case(ctx.rng, sc, d))
+    for _ in range(n_random):
+        out.append(await phases_case(ctx.rng, "random"))
+    return out
+
+
+def generate_phases(ctx, n_random):
+    return cc.run(_run_phases(ctx, n_random), timeout=1800)
+
+
+def judge_phases(ctx, cases, suffix=""):
+    seen = set()
+    for c in cases:
+        gone = sum(1 for ph in c["phases"] for p in ph["before"] if p not in ph["after"])
+        ctx.case(("own-phases", c["scenario"], c["dir"], repr([ph["before"] for ph in c["phases"]])), gone > 0)
+        ctx.count("own_phases_cases", 1)
+        ctx.count("own_phases_" + c["scenario"].split("-")[0], 1)
+        ctx.count("own_phases_injected_failures", sum(len(ph["injected_failures"]) for ph in c["phases"]))
+        ctx.count("own_phases_adopted_static_in_last_phase", len(c["phases"][-1]["statics"]) if c["phases"] else 0)
+        for sig, detail in phases_oracle(c):
+            if sig not in seen:
+                seen.add(sig)
+                ctx.add_failure("oracle", "own:phases", sig + suffix, detail, witness=phases_witness(c))
